@@ -2,6 +2,7 @@ package props
 
 import (
 	"fmt"
+	"regexp"
 	"sort"
 	"strings"
 	"time"
@@ -24,6 +25,9 @@ var c01Injections = []string{
 	"*{unknown-property:1px}", "p{color:12px}", "div{width:red;}", "@unknown-rule x{a:b}", "@unknown;", "p::selection{color:red}", "p::unknown-pseudo{color:red}", "span:unknown-class{color:red}", "a{-webkit-foo:bar}",
 	"div{margin:1px 2px 3px 4px 5px}", "p{display:blocky}", "@font-face{src:url(missing.ttf)}", "@counter-style{system:cyclic}", "@page :unknown{margin:0}", "p{content:}", "}", "p{color:red", "@import 'missing.css';", "li{list-style-type:symbols()}", "p{color:red}}", "@media print{p{colr:red}}",
 }
+
+// a marker image that the offline fetcher cannot load (anything but a data: URI)
+var c01BrokenMarkerImage = regexp.MustCompile(`list-style-image:url\((?:x|missing)\.png\)`)
 
 func c01Gen(t *rapid.T, tier Tier) interface{} {
 	depth := 4
@@ -135,6 +139,27 @@ func c01Check(ci interface{}) Verdict {
 	}
 	labels, nElems := c01Labels(r, c.Doc)
 	if c.Inject == "" {
+		// an image that cannot be loaded is skipped: a list whose marker image is missing renders as if it
+		// declared none (the markers of list-style-type are drawn)
+		if c01BrokenMarkerImage.MatchString(c.Doc.HTML) {
+			html3 := c01BrokenMarkerImage.ReplaceAllString(c.Doc.HTML, "list-style-image:none")
+			r3, err := wr.Render(html3, opts)
+			if err != nil {
+				return Verdict{Excluded: "variant-rejected", Labels: labels}
+			}
+			labels = append(labels, "broken-marker-image")
+			// (empty text runs are not text)
+			noEmpty := func(s string) string {
+				return strings.Join(strings.FieldsFunc(s, func(r rune) bool { return r == '\x1f' }), "\x1f")
+			}
+			if a, b := noEmpty(c01Texts(r)), noEmpty(c01Texts(r3)); len(r3.Pages) != len(r.Pages) || a != b {
+				if flat := strings.NewReplacer("\x1f", "", " ", "").Replace(a + b); strings.Contains(flat, "image:") || strings.Contains(flat, "list-style") {
+					// the document draws its own source (textarea, displayed style element)
+					return Verdict{Excluded: "source-displayed", Labels: labels}
+				}
+				return Verdict{Sig: "skip:broken-list-style-image", Msg: fmt.Sprintf("a list-style-image that cannot be loaded changes the rendering: %d pages, text %q; with list-style-image:none: %d pages, text %q\n%s", len(r.Pages), a, len(r3.Pages), b, c.Doc.HTML), Labels: labels}
+			}
+		}
 		return Verdict{NonTrivial: nElems >= 3, Labels: labels}
 	}
 	html2, ok := c01InjectInto(c.Doc.HTML, c.Inject)
